@@ -59,12 +59,19 @@ KNOWN_METHODS = {
     "lower", "upper", "numpy", "numpy_flat", "remove", "reshape", "shape", "shape_flat", "values",
     "setdefault", "update", "pop", "popitem", "discard", "clear", "sort", "reverse", "index",
     "count", "strip", "split", "format", "startswith", "endswith", "tolist", "item",
+    # logger methods (diagnostics only)
+    "debug", "info", "warning", "error", "exception", "critical", "log", "isEnabledFor",
 }
+
+
+REF_SIGNATURES = {}        # fq -> parameter names of the reference tree (set by sa/driver.py)
 
 
 def known_external(fname):
     if fname in KNOWN_EXTERNALS or fname.startswith("numpy.random.") or fname.startswith("random."):
         return True
+    if fname.startswith("logging.") or fname == "warnings.warn":
+        return True                      # diagnostics: no effect on the state the rules speak about
     if fname.startswith("builtins.") and (fname.endswith("Error") or fname.endswith("Exception")
                                           or fname.endswith("Warning")):
         return True                      # exception constructors
@@ -182,6 +189,19 @@ class Interp:
         a = fi.node.args
         for p in a.kwonlyargs:
             env[p.arg] = args.get(p.arg, ("param", p.arg))
+        # a parameter the reference tree's function of this name does not have is outside the
+        # properties: existing calls do not pass it, it has its (constant) default
+        ref = REF_SIGNATURES.get(fi.fq) if REF_SIGNATURES else None
+        if ref is not None:
+            pos = a.posonlyargs + a.args
+            dmap = dict(zip([x.arg for x in pos[len(pos) - len(a.defaults):]], a.defaults))
+            dmap.update({k.arg: d for k, d in zip(a.kwonlyargs, a.kw_defaults) if d is not None})
+            for name, d in dmap.items():
+                if name not in ref and name not in args:
+                    if isinstance(d, ast.Constant):
+                        env[name] = C(d.value)
+                    elif isinstance(d, ast.Tuple) and not d.elts:
+                        env[name] = C(())
         if a.vararg:
             env[a.vararg.arg] = ("param", "*" + a.vararg.arg)
         if a.kwarg:
